@@ -470,3 +470,30 @@ def split_raised(prop, verdict, recs, label=lambda r: r.get('_item', '?')):
         else:
             good.append(r)
     return good
+
+
+def binding_selftest(name, module, recs, mutate, pick=3, cfg=None, evaluator=None):
+    """Vacuity / binding guard: corrupt one recorded field of a few accepted
+    records and require TLC to reject every one of them.  A check whose spec
+    accepts the corrupted observations is not bound to the implementation:
+    that is a machinery failure (exit 2), never a verdict."""
+    import copy
+    chosen = []
+    for r in recs:
+        m = mutate(copy.deepcopy(r))
+        if m is not None:
+            m['id'] = len(chosen)
+            chosen.append(m)
+        if len(chosen) >= pick:
+            break
+    if not chosen:
+        raise MachineryError(f'{name}: no record suitable for the binding self-test')
+    if evaluator is not None:
+        rej, _ = evaluator(chosen)
+    else:
+        rej, _ = eval_records(module, chosen, name + '-selftest', shards=1, cfg=cfg)
+    missed = [m['id'] for m in chosen if m['id'] not in rej]
+    if missed:
+        raise MachineryError(f'{name}: binding self-test failed - {len(missed)} corrupted '
+                             f'record(s) were accepted by {module}')
+    return len(chosen)
